@@ -121,6 +121,8 @@ def main(tier):
         for b in st.get('bad', []):
             i, t = b[0], b[1]
             x = recs[i - 1]
+            if not isinstance(t, str) and t[1] == -1:
+                t = t[0]
             name = t if isinstance(t, str) else '%s:%s' % (t[0], SYM.get(t[1], t[1]))
             if x['kind'] == 'route':
                 brief = {k: x[k] for k in ('mode', 'P', 'buf', 'opts', 'shapes', 'kx', 'ky')}
